@@ -29,7 +29,7 @@ TECHNIQUE = ("Lean 4 proof over a hand transcription of KeyTable / StylesheetRoo
              "translators regenerate the source-dependent facts (FunctionKey guard, the two getNodeSetByKey overloads, the "
              "context list of `use`); three-way correspondence run (real key() / in-transformation brute force / compiled "
              "Lean model), also on the ASan+UBSan build in the thorough tier")
-LEVEL_TEXT = ("Machine-checked for all inputs (Props/C15.lean, 28 theorems, and key_spec_c09 in C15/C09Instance.lean): the transcribed KeyTable constructor walk tests every "
+LEVEL_TEXT = ("Machine-checked for all inputs (Props/C15.lean, 30 theorems, and key_spec_c09 in C15/C09Instance.lean): the transcribed KeyTable constructor walk tests every "
               "node and attribute exactly once in document order; the table it builds answers getNodeSetByKey(name, value) with "
               "the document-order list of the nodes that match a declaration of that name and have the value among their use "
               "values (XSLT 1.0 12.2), null exactly for undeclared names; with strip-aware matching the answer is the "
@@ -52,7 +52,8 @@ LEVEL_NOTE = ("Trusted: Lean kernel; axioms propext/Classical.choice/Quot.sound 
               "StylesheetRoot::getNodeSetByKey/getKeyNode, StylesheetExecutionContextDefault::getNodeSetByKey, "
               "FunctionKey::execute, Stylesheet::postConstruction and the single-document path of "
               "MutableNodeRefList::addNodeInDocOrder (validated by the correspondence run, bounded by generator coverage); "
-              "translate/c15_functionkey.py, c15_execcontext.py, c15_keytable.py (regex over the named functions; an "
+              "translate/c15_functionkey.py, c15_execcontext.py, c15_keytable.py, c15_objectnames.py (regex over the named "
+              "functions / every createXalanQName call; an "
               "unrecognised shape is a broken obligation); harness, generator/renderer and the decoding of generate-id(). "
               "Modelled, not verified: XalanMap as an association list; XalanSourceTree as an inductive tree with a zipper "
               "cursor, node indices increasing in document order with the document node first (proved for the driver's "
@@ -63,10 +64,10 @@ LEVEL_NOTE = ("Trusted: Lean kernel; axioms propext/Classical.choice/Quot.sound 
               "(C02's evaluator is not imported); generate-id() injective. Covered by the correspondence run only: positional "
               "predicates, namespace nodes as use values, rejection of key() inside match/use, sort-key / with-param / AVT call "
               "sites, namespace nodes as context nodes, node-set arguments and predicates spanning documents. Not modelled: node lists spanning several documents in addNodeInDocOrder (C12), template-level evaluation "
-              "order. Four defects found by this check were repaired in /repo (44426a2, 64b58da, 4c14898, 381eb10); one is "
-              "open with a proposed fix: a prefixed key name held by reference in the shared scratch QName is overwritten by "
-              "QName-resolving use/match expressions during the table build (known entry C15-prefixed-name-overwritten; "
-              "theorems key_name_independent_of_use_evaluation[_partial], key_name_overwritten_counterexample).")
+              "order. Four defects found by this check were repaired in /repo (44426a2, 64b58da, 4c14898, 381eb10); a fifth, the "
+              "prefixed key name held by reference in the shared scratch QName, by 025acf6. Object names are resolved per "
+              "XSLT 2.4 in the model and the fUseDefault argument of every createXalanQName call is a generated table "
+              "(object_names_ignore_default_namespace). No known finding is open.")
 DESIGN_REF = "DESIGN.md section 5, C15; design/C15.md"
 
 THEOREMS = [
@@ -96,6 +97,8 @@ THEOREMS = [
     "XalanModel.Props.C15.key_history_independent",
     "XalanModel.Props.C15.key_answer_same_after_any_history",
     "XalanModel.Props.C15.key_calls_spec",
+    "XalanModel.Props.C15.object_names_ignore_default_namespace",
+    "XalanModel.Props.C15.unprefixed_object_name_ignores_default",
     "XalanModel.Props.C15.key_spec_concrete",
     "XalanModel.Props.C15.concrete_env_indexed",
 ]
@@ -414,6 +417,12 @@ def sub_cases(case):
         yield dict(c, rtf=[j for j in c["rtf"] if j != k])
     if c.get("preserve"):
         yield dict(c, preserve=None)
+    o = c.get("nsopt") or {}
+    for k in ("sheet_default", "key_default", "call_default", "key_mode", "call_mode"):
+        if o.get(k):
+            yield dict(c, nsopt=dict(o, **{k: []}))
+    if o.get("tmpl_default"):
+        yield dict(c, nsopt=dict(o, tmpl_default=False))
     for k, d in enumerate(c["docs"]):
         for nd in shrink_tree(d):
             yield dict(c, docs=c["docs"][:k] + [nd] + c["docs"][k + 1:], calls=[dict(x, ctx=(0 if x["ctx"] != "ns" else "ns"), **({"curctx": 0} if "curctx" in x else {})) for x in c["calls"]])
@@ -479,7 +488,7 @@ def describe(case):
     return {"docs": [G.doc_xml(d, G.strip_pred(case)) for d in case["docs"]],
             "sheets": [list(s) for s in case["sheets"]],
             "decls": [list(d) for d in case["decls"]],
-            "calls": case["calls"], "rtf": case.get("rtf", []), "strip": case.get("strip"), "preserve": case.get("preserve"),
+            "calls": case["calls"], "rtf": case.get("rtf", []), "strip": case.get("strip"), "preserve": case.get("preserve"), "nsopt": case.get("nsopt"),
             "case": case}
 
 
@@ -491,7 +500,7 @@ def from_json(c):
             return ("E", n[1], [tuple(a) for a in n[2]], [tup(k) for k in n[3]], bool(n[4]) if len(n) > 4 else False)
         return tuple(n)
     return {"id": c.get("id", "replay"), "docs": [tup(d) for d in c["docs"]], "sheets": [tuple(s) for s in c["sheets"]],
-            "decls": [tuple(d) for d in c["decls"]], "calls": c["calls"], "rtf": c.get("rtf", []), "strip": c.get("strip"), "preserve": c.get("preserve"),
+            "decls": [tuple(d) for d in c["decls"]], "calls": c["calls"], "rtf": c.get("rtf", []), "strip": c.get("strip"), "preserve": c.get("preserve"), "nsopt": c.get("nsopt"),
             "expect_compile_error": c.get("expect_compile_error", False)}
 
 
@@ -575,6 +584,7 @@ def run(ctx):
     ctx.translate("c15_functionkey")
     ctx.translate("c15_execcontext")
     ctx.translate("c15_keytable")
+    ctx.translate("c15_objectnames")
     ctx.lean("XalanModel.Props.C15", THEOREMS, extra_targets=["xm_c15"])
     model = ctx.exe("xm_c15")
     c09_instance(ctx)
@@ -605,6 +615,11 @@ def run(ctx):
                  cls="docs=%d" % len(case["docs"]))
         if case.get("expect_compile_error"):
             ctx.hist["key() inside use/match (compile error expected)"] = ctx.hist.get("key() inside use/match (compile error expected)", 0) + 1
+        o = case.get("nsopt") or {}
+        if o.get("sheet_default") or o.get("key_default") or o.get("tmpl_default") or o.get("call_default"):
+            ctx.hist["default namespace in scope of a key name / key() call"] = ctx.hist.get("default namespace in scope of a key name / key() call", 0) + 1
+        if o.get("key_mode") or o.get("call_mode"):
+            ctx.hist["prefix declared or re-declared at the point of use"] = ctx.hist.get("prefix declared or re-declared at the point of use", 0) + 1
         if case.get("preserve"):
             ctx.hist["with xsl:preserve-space"] = ctx.hist.get("with xsl:preserve-space", 0) + 1
         if case.get("strip"):
@@ -718,6 +733,7 @@ def replay(ctx, path):
     ctx.translate("c15_functionkey")
     ctx.translate("c15_execcontext")
     ctx.translate("c15_keytable")
+    ctx.translate("c15_objectnames")
     common.lake_build(["xm_c15"])
     model = ctx.exe("xm_c15")
     harness = common.build_harness("c15_keys", ["c15_keys.cpp"], flavor="hooks", sanitize=False)
